@@ -6,7 +6,7 @@ import hvgen
 import hvhist
 
 PROP_MODULES = ["HvsrVerif.Props.C05", "HvsrVerif.Props.C05Cov"]
-BRIDGE_MODULES = ["HvsrVerif.Bridge.C05", "HvsrVerif.Bridge.PyStats"]
+BRIDGE_MODULES = ["HvsrVerif.Bridge.C05", "HvsrVerif.Bridge.PyStats", "HvsrVerif.Bridge.PyVec"]
 
 
 def nontrivial(h):
